@@ -1180,7 +1180,18 @@ pub mod verif_hooks {
 
     /// A connection with `peer` is reported to the protocol (transport service first, then the protocol handler).
     pub fn connection_established(kernel: &mut Kernel, peer: PeerId, connection_id: ConnectionId) -> bool {
-        let (tx, rx) = tokio::sync::mpsc::channel(16);
+        connection_established_with_capacity(kernel, peer, connection_id, 16)
+    }
+
+    /// Like `connection_established`, with a chosen capacity of the connection's command channel (a busy
+    /// connection task: substream requests beyond the capacity are refused as `ChannelClogged`).
+    pub fn connection_established_with_capacity(
+        kernel: &mut Kernel,
+        peer: PeerId,
+        connection_id: ConnectionId,
+        capacity: usize,
+    ) -> bool {
+        let (tx, rx) = tokio::sync::mpsc::channel(capacity);
         kernel.commands.push((connection_id, rx));
         let endpoint = Endpoint::listener(multiaddr::Multiaddr::empty(), connection_id);
         let handle = ConnectionHandle::new(connection_id, tx);
